@@ -421,6 +421,9 @@ def resolve_capture(t):
 
 
 def run(run, tier, loadcfg):
+    if tier == 'thorough':
+        import witness
+        witness.check(run, 'c10', 1)
     run.rule_text = ('one obligation per (conversion impl x N) and per in-place rule; each decided for all slice lengths on all paths')
     run.explanation = 'See module docstring.'
     run.trusted = ['rustc MIR / type table', 'core::slice::from_raw_parts(ptr, n) yields a slice of n elements at ptr', 'Box::from_raw re-owns the allocation its pointer came from',
